@@ -617,7 +617,9 @@ class Sym:
     def __pow__(self, o):
         if isinstance(o, (float, np.floating)) and float(o).is_integer():
             o = int(o)
-        if isinstance(o, (int, np.integer)) and 0 <= o <= 8:
+        if isinstance(o, (int, np.integer)) and -12 <= o < 0:
+            return 1 / (self ** (-int(o)))
+        if isinstance(o, (int, np.integer)) and 0 <= o <= 12:
             r = z3.RealVal(1) if not self.e.is_int() else z3.IntVal(1)
             for _ in range(int(o)):
                 r = r * self.e
